@@ -29,6 +29,7 @@ EXPLANATION = (
   " (FIN-cellres) the cell-resolution attribute is written when, and only when, the document's value differs from the 32 x 15 default, evaluated on a grid of resolutions;"
   " (FIN-dropframe) the SMPTE writer's frame labels agree with ST 12-1 around every minute boundary for drop-frame rates and count plainly for non-drop rates;"
   " (FMT-color) the #rrggbb[aa] text the writer prints, evaluated on a grid of components including alpha below 10h, is consumed whole by the reader's pattern and gives the same components;"
+  ' (FIN-decoration) TextDecoration.from_model, evaluated for all 27 combinations of its three components, writes exactly one token per non-None component and the `no...` form for False;'
 )
 RULE_TEXT = "per element kind, per style property, per Enum member, per special-value access, per time syntax sample"
 UNDECIDED = ["snapshot equality after re-reading", "numeric precision of written lengths (:g formatting)", "font-family quoting round trip", "times move by less than one unit and never change order"]
@@ -294,6 +295,37 @@ def check_color_format(ctx):
             "; ".join(wrong[:3]) + ": the colour (typically its alpha) changes when the document is read back")
 
 
+def check_text_decoration_tokens(ctx):
+  """FIN-decoration: tts:textDecoration is a list of up to three tokens, one per component; a component
+  that is True writes `underline` / `lineThrough` / `overline`, one that is False writes the `no...`
+  form, one that is None writes nothing.  TextDecoration.from_model is evaluated for all 27
+  combinations of (underline, line_through, overline) in {None, True, False}."""
+  import itertools
+  from ..rules import fineval
+  ix = ctx.ix
+  c = ix.cls(f"{SP}:StyleProperties.TextDecoration")
+  f = c.methods["from_model"]
+  ctx.unit(f.module)
+  mv = f.params[-1]
+  names = {"underline": ("underline", "noUnderline"), "line_through": ("lineThrough", "noLineThrough"), "overline": ("overline", "noOverline")}
+  lists = {st.targets[0].id for st in own_nodes(f.node) if isinstance(st, ast.Assign) and len(st.targets) == 1 and isinstance(st.targets[0], ast.Name) and isinstance(st.value, ast.List)}
+  if len(lists) != 1:
+    raise AnalysisError(f"{f.qualname}: the list of tokens was not found")
+  acc = next(iter(lists))
+  wrong, n = [], 0
+  for u, l, o in itertools.product((None, True, False), repeat=3):
+    eff = fineval.collect(ix, f, f.node.body, {f"{mv}.underline": u, f"{mv}.line_through": l, f"{mv}.overline": o}, acc)
+    if any("underline" in s_ or "line_through" in s_ or "overline" in s_ for s_ in eff.skipped):
+      raise AnalysisError(f"{f.qualname}: a component test could not be evaluated ({eff.skipped[0]})")
+    got = sorted(a[0] for name, a, _ in eff.calls if name == "append" and a and isinstance(a[0], str))
+    want = sorted(names[k][0 if v else 1] for k, v in (("underline", u), ("line_through", l), ("overline", o)) if v is not None)
+    n += 1
+    if got != want:
+      wrong.append(f"(underline={u}, line_through={l}, overline={o}) writes {got}, must write {want}")
+  ctx.check(not wrong, "FIN-decoration", f"{f.qualname}|one token per component", ctx.where(f.module, f.node), f"{n} combinations of the three components",
+            "; ".join(wrong[:3]) + ": a decoration is lost or invented when the document is read back")
+
+
 def check_list_separators(ctx):
   ix = ctx.ix
   c = ix.cls(f"{SP}:StyleProperties.TextShadow")
@@ -532,4 +564,5 @@ def run(ctx):
   n = exa.check_exactness(ctx, fs, rule="EXA", exempt=common.EXA_EXEMPT, trunc_scope=common.time_trunc_scope(ctx))
   ctx.floor("EXA", "truncation sinks on the writer's time path", n, 10)
   check_color_format(ctx)
+  check_text_decoration_tokens(ctx)
   common.check_history_independence(ctx, ["ttconv.imsc.writer", "ttconv.imsc.reader", "ttconv.imsc.elements", "ttconv.imsc.attributes", "ttconv.imsc.utils", "ttconv.imsc.style_properties", "ttconv.imsc.config", "ttconv.time_code", "ttconv.utils"])
